@@ -16,7 +16,7 @@ for mf in sorted(glob.glob(os.path.join(ROOT, "seeded", "*", "meta.json"))):
     first = re.sub(r"[|`]", "", first)[:170]
     valid = m.get("patch_applies") and m.get("existing_suite_passes_with_change") and m.get("demo_fails_with_change") and m.get("demo_passes_on_clean_tree")
     own = m["checks"][m["property"]]
-    res = "**caught**: " + ", ".join(own["failing_clauses"]) if own["exit"] == 1 else ("machinery failure (exit 2)" if own["exit"] == 2 else "missed")
+    res = "**caught**: " + ", ".join(own["failing_clauses"]) if own["exit"] == 1 and own.get("violation_lines", 0) > 0 else ("machinery failure (exit 2)" if own["exit"] == 2 else "missed")
     hist = m.get("history", "")
     rows.append("| %s | %s | %s | %s%s |" % (name, "yes" if valid else "NO", first, res, (" - " + hist) if hist else ""))
 table = "| change | confirmed | what it is (from its README) | quick check of its property |\n|---|---|---|---|\n" + "\n".join(rows)
